@@ -75,6 +75,13 @@ func csContext(abbreviated, other bool) string {
 
 func runC10(r *Report, tier string) {
 	P := r.P
+	// round 6: decoded parents carry each countersignature of a list as its own object
+	r.rule("R08.6", "(shared with C08) the countersignature header value decoder delivers the single object as *Countersignature and the list as []*Countersignature decoded by the mode itself (one fresh object per element), and refuses only after both forms failed.")
+	if cs := P.countersigValueDecoder(); cs != nil {
+		checkCountersigValueRefusal(r, "R08.6", cs)
+	} else {
+		r.ob("R08.6", "countersignature-value-decoder", nil, nil, "the countersignature header value decoder tries both forms").fail("no function decodes a header value both as *Countersignature and as []*Countersignature")
+	}
 	r.rule("R10.1", "Countersign_structure table: each value arm of the builder's type switch (SignMessage, Sign1Message, Signature, Countersignature), on every success path, yields Enc([ctx, DetBstr(ProtBytes(parent.Headers)), DetBstr(signProtected param), NilToEmpty(external param), payload] ++ [other_fields] only for Sign1) with payload = parent.Payload (messages) resp. parent.Signature (signatures), other_fields = [DetBstr(Enc(parent.Signature))], and has refused unsigned / payload-less parents; pointer arms re-dispatch the pointee with all other arguments unchanged; any other type fails.")
 	r.rule("R10.2", "context selection is the 2x2 table (abbreviated, other_fields present) -> CounterSignature, CounterSignature0, CounterSignatureV2, CounterSignature0V2.")
 	r.rule("R10.3", "the two forms: Countersignature.Sign/Verify call the builder with abbreviated=false and ProtBytes(own Headers); Countersign0/VerifyCountersign0 with abbreviated=true and the constant empty bstr 0x40; parent and external are the caller's.")
